@@ -23,7 +23,7 @@ struct Hold {
 thread_local! {
     static HOLD: RefCell<Option<Hold>> = const { RefCell::new(None) };
 }
-fn install_callback() {
+pub fn install_callback() {
     static ONCE: OnceLock<()> = OnceLock::new();
     ONCE.get_or_init(|| {
         tantivy::verif_hooks::set_callback(Some(Arc::new(|_name: &'static str| {
@@ -38,7 +38,8 @@ fn install_callback() {
                         }
                     }
                 }
-            })
+            });
+            crate::props::c02_shared::on_point();
         })));
     });
 }
